@@ -75,6 +75,28 @@ void h_remove (void)
 	OBL (r == ((q != k && qhad) ? qv : NOT_FOUND), "remove deletes only that key (also among keys sharing its bucket)");
 	if (had) CANARY ("removed"); else CANARY ("absent");
 }
+/* two-step histories on one table object: observer, update, observer -- state that an operation leaves behind for the next one
+ * (a "last node" cache, a lazily kept counter) is invisible to the one-operation units, which start from a freshly built object */
+void h_sequence (void)
+{
+	PHashTable *t = build_table ();
+	ppointer k1 = nondet_ptr (), k2 = nondet_ptr (), v = nondet_ptr (), v1 = NULL, v2 = NULL; _Bool had1 = model_get (k1, &v1), had2 = model_get (k2, &v2);
+	ppointer r1 = p_hash_table_lookup (t, k1);
+	OBL (r1 == (had1 ? v1 : NOT_FOUND), "history: first lookup gives the stored value or the not-found marker");
+	_Bool do_insert = nondet_bool ();
+	g_alloc_failed = 0;
+	if (do_insert) p_hash_table_insert (t, k2, v); else p_hash_table_remove (t, k2);
+	_Bool took = do_insert && (had2 || !g_alloc_failed);
+	ppointer r2 = p_hash_table_lookup (t, k1);
+	OBL (r2 == (k1 == k2 ? (do_insert ? (took ? v : NOT_FOUND) : NOT_FOUND) : (had1 ? v1 : NOT_FOUND)), "history: a lookup after an insert/remove sees the update (and only the update), whatever was looked up before");
+	ppointer r3 = p_hash_table_lookup (t, k2);
+	OBL (r3 == (do_insert ? (took ? v : NOT_FOUND) : NOT_FOUND), "history: the updated key itself reads back as updated");
+	/* and once more the other way round: remove what was just inserted / insert what was just removed */
+	if (do_insert) p_hash_table_remove (t, k2); else { g_alloc_failed = 0; p_hash_table_insert (t, k2, v); }
+	ppointer r4 = p_hash_table_lookup (t, k2);
+	OBL (r4 == (do_insert ? NOT_FOUND : ((!g_alloc_failed) ? v : NOT_FOUND)), "history: insert after remove / remove after insert of the same key");
+	if (k1 == k2 && had1 && do_insert) CANARY ("overwrite after a hit"); if (k1 == k2 && had1 && !do_insert) CANARY ("remove after a hit"); if (k1 == k2 && !had1 && took) CANARY ("insert after a miss");
+}
 /* for the listing functions (which never call the bucket function) the entries are spread in any way over three concrete
  * buckets (first, middle, last): every other bucket is concretely empty, which keeps the 101-iteration scans cheap */
 static PHashTable *build_table_listing (void)
@@ -87,7 +109,11 @@ static PHashTable *build_table_listing (void)
 		for (unsigned j = 0; j < L; j++) if (j < i) __CPROVER_assume (g_mk[j] != g_mk[i]);
 		PHashTableNode *n = malloc (sizeof (PHashTableNode)); __CPROVER_assume (n != NULL);
 		n->key = g_mk[i]; n->value = g_mv[i];
+#ifdef ONE_BUCKET
+		unsigned c = 0;      /* every entry in the first bucket: one chain, the other 100 buckets concretely empty */
+#else
 		unsigned c = nondet_uint ();
+#endif
 		if (c % 3 == 0) { n->next = t->table[0]; t->table[0] = n; }
 		else if (c % 3 == 1) { n->next = t->table[57]; t->table[57] = n; }
 		else { n->next = t->table[100]; t->table[100] = n; }
@@ -121,6 +147,89 @@ void h_keys_values (void)
 }
 #endif
 #ifndef LISTING_STUB
+/* C18: the listing functions under allocation failure (real plist.c, every p_list_append may fail independently): no invalid access,
+ * at most the stored entries are listed, every listed item is a stored one, and every list node that was allocated is part of the
+ * returned list -- so releasing the result releases everything (a failed append loses that item, never the nodes around it) */
+#ifndef LIST_WHICH
+#define LIST_WHICH 0
+#endif
+void h_listing_allocfail (void)
+{
+	/* a table object of 2 buckets (the scan is generic in table->size; 101 buckets with an allocating loop body did not get through symbolic execution) */
+	g_alloc_may_fail = 0;
+	PHashTable *t = malloc (sizeof (PHashTable)); __CPROVER_assume (t != NULL);
+	t->size = 2; t->table = malloc (2 * sizeof (PHashTableNode *)); __CPROVER_assume (t->table != NULL);
+	t->table[0] = t->table[1] = NULL;
+	g_mn = nondet_uint (); __CPROVER_assume (g_mn <= L);
+	for (unsigned e = 0; e < L; e++) if (e < g_mn) {
+		g_mk[e] = nondet_ptr (); g_mv[e] = nondet_ptr ();
+		for (unsigned j = 0; j < L; j++) if (j < e) __CPROVER_assume (g_mk[j] != g_mk[e]);
+		PHashTableNode *nd = malloc (sizeof (PHashTableNode)); __CPROVER_assume (nd != NULL);
+		nd->key = g_mk[e]; nd->value = g_mv[e];
+		if (nondet_bool ()) { nd->next = t->table[0]; t->table[0] = nd; } else { nd->next = t->table[1]; t->table[1] = nd; }
+	}
+	unsigned i = nondet_uint (); __CPROVER_assume (i < L && (LIST_WHICH != 2 || i < g_mn));
+	g_alloc_may_fail = 1; g_alloc_failed = 0;
+	unsigned long a0 = g_allocs, f0 = g_frees;
+#if LIST_WHICH == 0
+	PList *r = p_hash_table_keys (t);
+#elif LIST_WHICH == 1
+	PList *r = p_hash_table_values (t);
+#else
+	PList *r = p_hash_table_lookup_by_value (t, g_mv[i], NULL);
+#endif
+	unsigned n = 0; unsigned j = nondet_uint (); ppointer item_j = NULL; _Bool have_j = 0;
+	for (PList *c = r; c != NULL && n <= L; c = c->next) { if (n == j) { item_j = c->data; have_j = 1; } n++; }
+	OBL (n <= g_mn, "listing under allocation failure: never more items than stored entries");
+	OBL (g_allocs - a0 == n, "listing under allocation failure: every list node that was allocated is part of the returned list");
+	OBL (g_frees == f0, "listing under allocation failure: nothing is released behind the caller's back");
+#if LIST_WHICH != 2
+	OBL (g_alloc_failed || n == g_mn, "listing without an allocation failure is complete");
+#endif
+	if (have_j) { _Bool stored = 0; for (unsigned q = 0; q < L; q++) if (q < g_mn && (LIST_WHICH == 1 ? g_mv[q] : g_mk[q]) == item_j) stored = 1; OBL (stored, "listing under allocation failure: every listed item is a stored one"); }
+	p_list_free (r);
+	OBL (g_allocs - a0 == g_frees - f0, "listing under allocation failure: releasing the result releases everything the call allocated");
+	if (g_alloc_failed && n >= 1 && n < g_mn) CANARY ("an append in the middle failed"); if (!g_alloc_failed && n == L) CANARY ("complete listing of a full table");
+}
+/* the listing functions once more with the REAL plist.c (no log stub) on a table object of 3 buckets: the result is an ordinary list
+ * whose items are exactly the stored keys / values / keys bound to a value -- however the function links the nodes together */
+void h_listing_real (void)
+{
+	g_alloc_may_fail = 0;
+	PHashTable *t = malloc (sizeof (PHashTable)); __CPROVER_assume (t != NULL);
+	t->size = 3; t->table = malloc (3 * sizeof (PHashTableNode *)); __CPROVER_assume (t->table != NULL);
+	t->table[0] = t->table[1] = t->table[2] = NULL;
+	g_mn = nondet_uint (); __CPROVER_assume (g_mn <= L);
+	for (unsigned e = 0; e < L; e++) if (e < g_mn) {
+		g_mk[e] = nondet_ptr (); g_mv[e] = nondet_ptr ();
+		for (unsigned j = 0; j < L; j++) if (j < e) __CPROVER_assume (g_mk[j] != g_mk[e]);
+		PHashTableNode *nd = malloc (sizeof (PHashTableNode)); __CPROVER_assume (nd != NULL);
+		nd->key = g_mk[e]; nd->value = g_mv[e];
+		unsigned b = nondet_uint (); __CPROVER_assume (b < 3);
+		nd->next = t->table[b]; t->table[b] = nd;
+	}
+	unsigned i = nondet_uint (); __CPROVER_assume (i < g_mn);
+	unsigned long a0 = g_allocs;
+#if LIST_WHICH == 0
+	PList *r = p_hash_table_keys (t);
+#elif LIST_WHICH == 1
+	PList *r = p_hash_table_values (t);
+#else
+	PList *r = p_hash_table_lookup_by_value (t, g_mv[i], NULL);
+#endif
+	unsigned n = 0, cnt = 0, cmv = 0;
+	for (unsigned j = 0; j < L; j++) if (j < g_mn && g_mv[j] == g_mv[i]) cmv++;
+	for (PList *c = r; c != NULL && n <= L; c = c->next) { if (c->data == (LIST_WHICH == 1 ? g_mv[i] : g_mk[i])) cnt++; n++; }
+#if LIST_WHICH == 0
+	OBL (n == g_mn && cnt == 1, "keys lists exactly the stored keys, each once (real list)");
+#elif LIST_WHICH == 1
+	OBL (n == g_mn && cnt == cmv, "values lists every stored value as often as it is stored (real list)");
+#else
+	OBL (n == cmv && cnt == 1, "lookup_by_value lists exactly the keys bound to that value (real list)");
+#endif
+	OBL (g_allocs - a0 == n, "listing: one list node per listed item, all of them in the returned list");
+	if (g_mn == L) CANARY ("full");
+}
 void h_table_null (void)
 {
 	ppointer k = nondet_ptr ();
